@@ -56,13 +56,15 @@ inductive NOp
   | nd (r : RawEvent)          -- Node.AppendMessageEvent on the leader
   | ev (r : RawEvent)          -- a direct durable append (Shard.AppendMessageEvent)
   | bt (rs : List RawEvent)    -- one metadata batch of appends
-  | lose                       -- the leader's cache is lost
+  | lose                       -- the leader's cache is lost (process restart)
+  | rt (r : Route)             -- a route-table change (Slot leaders, hash-slot ownership)
 
 def nexec (n : Node) : NOp → Node
   | .nd r => (nstep n r).1
   | .ev r => { n with db := (tstep n.db r).1 }
   | .bt rs => { n with db := (tbatch n.db rs).1 }
   | .lose => loseCache n
+  | .rt r => setRoute n r
 
 def nrun (n : Node) (h : List NOp) : Node := h.foldl nexec n
 
